@@ -30,7 +30,7 @@ _BI_TB = ["the real `copia` binary built from the tree under test, run in a sand
 
 PROPS = {
     "C01": dict(
-        modules=["Copia.Props.C01", "Copia.Props.C01b", "Copia.Props.C01c", "Copia.Props.C01d", "Copia.Props.C05b", "Copia.Props.C01e", "Copia.Props.C01f"], namespaces=["Copia.C01"], runner="rust", needs_cli=True,
+        modules=["Copia.Props.C01", "Copia.Props.C01b", "Copia.Props.C01c", "Copia.Props.C01d", "Copia.Props.C05b", "Copia.Props.C01e", "Copia.Props.C01f", "Copia.Props.C01g"], namespaces=["Copia.C01"], runner="rust", needs_cli=True,
         assumptions=_DELTA_ASSUME, trusted_base=_DELTA_TB,
         level_text="Kernel-checked theorems for ALL basis/source byte strings and ALL positive block sizes: patch(basis, delta(signature(basis), src)) = ok src "
                    "(or H collides on an explicit pair), delta well-formedness (declared size/checksum, lengths sum, copies inside the basis), sync_files for absent/identical/differing destination. "
